@@ -33,6 +33,8 @@ pub fn asm_kind(e: &AsmError) -> String {
         AsmError::ParseInclude { source, .. } => parse_kind(source),
         AsmError::UndeclaredVariableMacro { var, .. } => format!("UndeclaredVariableMacro({})", var),
         AsmError::DivisionByZero { .. } => "DivisionByZero()".into(),
+        AsmError::RecursionLimit { .. } => "RecursionLimit()".into(),
+        AsmError::MacroArgumentCount { name, .. } => format!("MacroArgumentCount({})", name),
         other => format!("AsmOther({})", format!("{:?}", other).split_whitespace().next().unwrap_or("?")),
     }
 }
